@@ -111,8 +111,8 @@ def run(tier, t0):
         prog2 = program('symbols-nohttp')
         fns2, _ = totality.in_scope_fns(prog2, ['breakpad_symbols'])
         totality.run_panics(res, prog2, fns2, 'C03.1' + '/nohttp', floor_sites=50)
-    totality.run_loops(res, prog, fns, 'C03.2', floor_l3=7)
-    totality.run_allocs(res, prog, fns, 'C03.4', floor=5)
+    totality.run_loops(res, prog, fns, 'C03.2', floor_l3=4)
+    totality.run_allocs(res, prog, fns, 'C03.4', floor=3)
     walk_bound(res, prog)
     optional_streams(res, prog)
     limits_filter(res, prog)
